@@ -252,6 +252,13 @@ int main(int argc, char** argv)
         emitLine(o.str());
         ++crashes;
         from = shared->episode + 1;
+        // a tree that crashes on a whole class of inputs would fork once per episode: enough is enough
+        const char* cap = getenv("VERIF_MAX_CRASHES");
+        if (crashes >= (cap ? atol(cap) : 100))
+        {
+            fprintf(stderr, "exec: stopped after %ld crashes; %zu episodes not executed\n", crashes, lines.size() - static_cast<size_t>(from));
+            break;
+        }
     }
     fclose(out);
     fprintf(stderr, "exec: %zu episodes, %ld crashes\n", lines.size(), crashes);
